@@ -572,9 +572,9 @@ int main(int argc, char** argv)
                         return 0;
                 }
                 if(!strcmp(mode, "canon")){
-                        int N, rep;
+                        int N, rep, nfrom = arg_int(argc, argv, "--nfrom", 1), nto = arg_int(argc, argv, "--nto", 64);
                         long runs = 0;
-                        for(N = 1; N <= 64; N++){
+                        for(N = nfrom; N <= nto; N++){
                                 for(nested = 0; nested < 2; nested++){
                                         for(rep = 0; rep < (N <= 2 ? 2 : 1); rep++){
                                                 struct outcome o;
